@@ -702,7 +702,23 @@ func bodyC17(s *Sim) {
 				}
 			}
 			s.Advance(11 * time.Second)
-			s.RunTask(CtrlERS, types.NamespacedName{Namespace: b.Namespace, Name: b.Name})
+			bk := types.NamespacedName{Namespace: b.Namespace, Name: b.Name}
+			s.RunTask(CtrlERS, bk)
+			if hash64(fmt.Sprint(s.Seed), "c17promote")%2 == 0 {
+				// the canary is validated while its nodes carry surplus pods again: the first sync in the
+				// active role removes the canary labels and has clean-up deletions in the same sync
+				s.settleAll()
+				s.userAnnotate(def.NS, def.Name, edsv1.ExtendedDaemonSetCanaryValidAnnotationKey, b.Name)
+				for _, cn := range e.Status.Canary.Nodes {
+					if n := s.Store.GetNode(cn); n != nil {
+						s.injectPod(b, n, PodState{Kind: "ready", AgeSec: 5, Suffix: "-d3"})
+					}
+				}
+				s.RunTask(CtrlEDS, key)
+				s.Advance(11 * time.Second)
+				s.RunTask(CtrlERS, bk)
+				s.Stats.NonVacuous["C17.promoted-with-cleanup"]++
+			}
 		}
 	}
 	s.Chaos()
